@@ -56,10 +56,21 @@ impl<'a, C: Cs> Run<'a, C> {
 fn issuance<C: Cs>(ctx: &Ctx, st: &Setup<C>, own: Option<&CL03CommitmentPublicKey>, r: &mut impl rand::RngCore, n: usize, u: Vec<usize>, tamper: bool) {
     let bases = st.bases_n(n);
     let mix = rand_range(r, 4);
-    let msgs = attributes::<C>(r, n, mix);
+    let mut msgs = attributes::<C>(r, n, mix);
+    // boundary values at hidden positions: 0, 1 and 2^lm - 1 are legal attribute values
+    let boundary = rand_range(r, 6);
+    if boundary < 3 && !u.is_empty() {
+        let i = u[rand_range(r, u.len())];
+        msgs[i] = attribute::<C>(r, boundary);
+        ctx.count(&format!("hidden_boundary_value_{}", ["0", "1", "max"][boundary]), 1);
+    }
     let case = format!("{}/n{}/U={:?}/{}", C::NAME, n, u, if own.is_some() { "trusted" } else { "plain" });
     ctx.distinct(&case);
-    let commitment = Commitment::<CL03<C>>::commit_with_pk(&msgs, st.pk(), &bases, Some(&u));
+    let commitment = ctx.call("commit_with_pk", &case, None, || Ok::<_, ()>(Commitment::<CL03<C>>::commit_with_pk(&msgs, st.pk(), &bases, Some(&u))));
+    let Some(commitment) = commitment.value else {
+        ctx.violation("C14:commit-panicked", json!({"case":case,"outcome":commitment.outcome.short(),"hidden_values":u.iter().map(|&i| ihex(&msgs[i].value)).collect::<Vec<_>>()}));
+        return;
+    };
     let trusted = own.map(|ck| {
         let ckn = ck;
         (Commitment::<CL03<C>>::commit_with_commitment_pk(&msgs, ckn, Some(&u)).cl03Commitment().clone(), ckn)
@@ -141,8 +152,10 @@ fn issuance<C: Cs>(ctx: &Ctx, st: &Setup<C>, own: Option<&CL03CommitmentPublicKe
     // commitment to other attributes
     let mut m2 = msgs.clone();
     m2[u[0]].value = Integer::from(&m2[u[0]].value ^ 1u32);
-    let c2 = Commitment::<CL03<C>>::commit_with_pk(&m2, st.pk(), &bases, Some(&u));
-    refuse("commitment-to-other-attributes", &run.zk, c2.cl03Commitment(), &u, true);
+    match ctx.call("commit_with_pk", &case, None, || Ok::<_, ()>(Commitment::<CL03<C>>::commit_with_pk(&m2, st.pk(), &bases, Some(&u)))).value {
+        Some(c2) => refuse("commitment-to-other-attributes", &run.zk, c2.cl03Commitment(), &u, true),
+        None => ctx.violation("C14:commit-panicked", json!({"case":case,"hidden_values":u.iter().map(|&i| ihex(&m2[i].value)).collect::<Vec<_>>()})),
+    }
     let mut c3 = c.clone();
     c3.value = Integer::from(&c3.value + 1u32);
     refuse("commitment-value+1", &run.zk, &c3, &u, true);
